@@ -198,12 +198,39 @@ def functional_steps(ctx):
             # the view is exactly the grid: same shape, agent on the anchor cell facing FORWARD (nothing to crop, pad or rotate)
             p, o = (h - 1, w // 2), 0
             desc['obs'] = {'name': r.choice(['partially_occluded', 'raytracing', 'stochastic_raytracing', 'fully_transparent']), 'area': (-(h - 1), 0, -(w // 2), w // 2)}
+        a = r.choice(desc['actions'] + [6, 6, 7])
+        if not aligned and r.random() < 0.15:
+            # the agent's pose AND the object it acts on change in the same step: on a telepod, facing a door / box / key, acting on it;
+            # the partner telepod on an edge cell from which the same heading faces outward (the grid has no border walls)
+            dirs = {0: (-1, 0), 1: (1, 0), 2: (0, -1), 3: (0, 1)}
+            o = r.randrange(4)
+            dy, dx = dirs[o]
+            spots = [(y, x) for (y, x) in cells if 0 <= y + dy < h and 0 <= x + dx < w
+                     and not {(y, x), (y + dy, x + dx)} & {e_pos, b_pos}]
+            outs = [(y, x) for (y, x) in cells if not (0 <= y + dy < h and 0 <= x + dx < w) and (y, x) not in (e_pos, b_pos)]
+            if spots and outs:
+                p = r.choice(spots)
+                front = (p[0] + dy, p[1] + dx)
+                q = r.choice([c for c in outs if c not in (p, front)] or outs)
+                if q not in (p, front):
+                    col = r.choice([1, 2, 3])
+                    g = tuple(tuple(gen.FLOOR if cell[0] == TY['Telepod'] else cell for cell in row) for row in g)
+                    g = gen.set_cell(g, p, (TY['Telepod'], 0, col, None))
+                    g = gen.set_cell(g, q, (TY['Telepod'], 0, col, None))
+                    g = gen.set_cell(g, front, r.choice([(TY['Door'], r.randrange(3), r.choice([1, 2, 4]), None), (TY['Door'], 1, col, None),
+                                                         (TY['Key'], 0, col, None)]))
+                    extra = [0, 1, 4, 5, 2, 6]
+                    r.shuffle(extra)
+                    desc['trans'] = [t for t in extra if t not in (6,)][:r.randint(2, 5)] + [6]
+                    if 4 not in desc['trans']:
+                        desc['trans'].insert(0, 4)
+                    a = r.choice([6, 6, 6, 7, 0])
+                    ctx.count('functional_step', 'directed: teleported while acting')
         cs = (g, p, o, held)
         try:
             env = comp.build_env(desc)
         except Exception:  # noqa: BLE001
             continue
-        a = r.choice(desc['actions'] + [6, 6, 7])
         debug = r.random() < 0.5
         gvdebug.reset_gv_debug(debug)
         st = wire.mkstate(cs)
@@ -319,6 +346,9 @@ def run(ctx):
     trajectories(ctx)
     functional_steps(ctx)
     membership(ctx)
+    # 'actions outside the action space are rejected with ValueError and change NOTHING' -- state, memoised observation, random stream
+    from vt.suites import C04
+    C04.rejected_actions(ctx)
 
 
 def replay(ctx, case):
